@@ -66,6 +66,7 @@ MustRefuse(f, r) ==
     [] r.k = "num"  -> /\ ~SomeRepresentable(f, SM(r.neg, r.mag), r.cls)
                        /\ (Len(Trim(r.mag)) > 50 => Len(Trim(r.mag)) > f.len)   \* wide fields: only clearly out of range
     [] r.k = "code" -> r.neg \/ Len(Trim(r.mag)) > f.len
+    [] r.k = "name" -> \A key \in DOMAIN Lookups[f.lookup] : Lookups[f.lookup][key] # r.s     \* no such name in the table
     [] OTHER -> FALSE
 
 EncFieldVerdict(f, e, r) ==
@@ -73,6 +74,10 @@ EncFieldVerdict(f, e, r) ==
     CASE r.k \in {"na", "num"} -> EncNumVerdict(f, code, r)
       [] r.k = "code" -> IF Trim(code) = Trim(r.mag) THEN "ok" ELSE "encode.wrong-code"
       [] r.k = "bits" -> IF Trim(code) = Trim(r.mag) THEN "ok" ELSE "encode.wrong-bits"
+      \* a lookup requested by name: the code written must be one the table maps to that name
+      [] r.k = "name" -> LET key == IF Fits30(code) THEN ToString(ToNat(code)) ELSE "?" IN
+                           IF key \in DOMAIN Lookups[f.lookup] /\ Lookups[f.lookup][key] = r.s THEN "ok"
+                           ELSE "encode.wrong-lookup-code"
       [] OTHER -> "ok"
 
 \* all bits outside field f equal in the two payloads
@@ -91,6 +96,7 @@ C09Verdict(rec) ==
          Fail(k, IF rec.req[k].k = "missing" THEN "encode.missing-field-accepted"
                  ELSE IF rec.req[k].k = "nonfinite" THEN "encode.nonfinite-accepted"
                  ELSE IF rec.req[k].k = "code" THEN "encode.too-wide-accepted"
+                 ELSE IF rec.req[k].k = "name" THEN "encode.unknown-lookup-name-accepted"
                  ELSE "encode.unrepresentable-accepted")
      ELSE IF d.len > 0 /\ Len(rec.e) # d.len THEN Fail(0, "encode.length")
      ELSE LET idx == SelectSeq([k \in 1..n |-> k],
